@@ -624,7 +624,7 @@ func (server *SugarDB) evictKeysWithExpiredTTL(ctx context.Context) error {
 	// whichever one is smaller.
 	sampleSize := int(server.config.EvictionSample)
 	if len(server.keysWithExpiry.keys[database]) < sampleSize {
-		sampleSize = len(server.keysWithExpiry.keys)
+		sampleSize = len(server.keysWithExpiry.keys[database])
 	}
 	keys := make([]string, sampleSize)
 
@@ -636,7 +636,7 @@ func (server *SugarDB) evictKeysWithExpiredTTL(ctx context.Context) error {
 	for i := 0; i < len(keys); i++ {
 		for {
 			// Retry retrieval of a random key until we find a key that is not already in the list of sampled keys.
-			idx = rand.Intn(len(server.keysWithExpiry.keys))
+			idx = rand.Intn(len(server.keysWithExpiry.keys[database]))
 			key = server.keysWithExpiry.keys[database][idx]
 			if !slices.Contains(keys, key) {
 				keys[i] = key
@@ -648,20 +648,28 @@ func (server *SugarDB) evictKeysWithExpiredTTL(ctx context.Context) error {
 
 	// Loop through the keys and delete them if they're expired
 	server.storeLock.Lock()
-	defer server.storeLock.Unlock()
 	for _, k := range keys {
+		// Only keys whose deadline has passed are evicted.
+		entry, ok := server.store[database][k]
+		if !ok || entry.ExpireAt == (time.Time{}) || !entry.ExpireAt.Before(server.clock.Now()) {
+			continue
+		}
 		// Delete the expired key
 		deletedCount += 1
 		if !server.isInCluster() {
 			if err := server.deleteKey(ctx, k); err != nil {
+				server.storeLock.Unlock()
 				return fmt.Errorf("evictKeysWithExpiredTTL -> standalone delete: %+v", err)
 			}
 		} else if server.isInCluster() && server.raft.IsRaftLeader() {
 			if err := server.raftApplyDeleteKey(ctx, k); err != nil {
+				server.storeLock.Unlock()
 				return fmt.Errorf("evictKeysWithExpiredTTL -> cluster delete: %+v", err)
 			}
 		}
 	}
+	// Release the store lock before possibly sampling again below (the lock is not reentrant).
+	server.storeLock.Unlock()
 
 	// If sampleSize is 0, there's no need to calculate deleted percentage.
 	if sampleSize == 0 {
